@@ -3,16 +3,17 @@ from vlib import Case, hx
 import gen_http as G
 
 HARNESS = "rx_driver"
-LEAN_MODULES = ["ViaProofs.C08", "ViaProofs.Roundtrip"]
-LEMMA_MODULES = ['ViaProofs.Trans.RL', 'ViaProofs.Trans.SL', 'ViaProofs.Trans.FL', 'ViaProofs.Trans.CH', 'ViaProofs.Trans.MH', 'ViaProofs.Trans.CK', 'ViaProofs.Trans.RQ', 'ViaProofs.Trans.RR', 'ViaProofs.Trans.RS', 'ViaProofs.Trans.MHA', 'ViaProofs.Trans.RQP']
+LEAN_MODULES = ["ViaProofs.C08", "ViaProofs.Roundtrip", "ViaProofs.Trans.EndToEnd"]
+LEMMA_MODULES = ['ViaProofs.Trans.RL', 'ViaProofs.Trans.SL', 'ViaProofs.Trans.FL', 'ViaProofs.Trans.CH', 'ViaProofs.Trans.MH', 'ViaProofs.Trans.CK', 'ViaProofs.Trans.RQ', 'ViaProofs.Trans.RR', 'ViaProofs.Trans.RS', 'ViaProofs.Trans.MHA', 'ViaProofs.Trans.RQP', 'ViaProofs.Trans.ENC']
 REQUIRED_THEOREMS = ['Via.hex_roundtrip', 'Via.dec_roundtrip', 'Via.std_names_parse', 'Via.own_headers_parse', 'Via.chunk_header_roundtrip',
                      'Via.RT.requestLine_roundtrip', 'Via.RT.headerLine_roundtrip', 'Via.RT.headers_roundtrip', 'Via.RT.request_roundtrip',
                      'Via.RT.statusLine_roundtrip', 'Via.RT.response_roundtrip', 'Via.RT.response_roundtrip_nocontent',
                      'Via.RT.chunk_roundtrip', 'Via.RT.lastChunk_roundtrip', 'Via.RT.resp_chunked_head', 'Via.RT.resp_chunk_received',
                      'Via.RT.resp_last_chunk_received', 'Via.RT.req_chunked_head', 'Via.RT.req_chunk_received',
-                     'Via.RT.req_chunk_concatenated', 'Via.RT.req_last_chunk_concatenated']
+                     'Via.RT.req_chunk_concatenated', 'Via.RT.req_last_chunk_concatenated',
+                     'Via.RT.source_request_roundtrip', 'Via.RT.source_response_roundtrip', 'Via.RT.source_chunk_roundtrip', 'Via.RT.source_lastChunk_roundtrip']
 LEVEL = "proof"
-LEVEL_TEXT = ('PROOF of the message-level round trips on the model (ViaProofs/Roundtrip.lean): for EVERY method / target / version / status / reason / list of header lines / body / chunk size / extension / trailer list that meets the stated validity conditions and every receiver configuration whose limits admit them, what tx_request::message, tx_response::message, chunk_header::to_string and last_chunk::to_string produce is received by request_receiver / response_receiver / rx_chunk as ONE valid message with exactly those components, leaving later bytes unread; plus hex/decimal number round trips and acceptance of every header name the library defines (regenerated table). The encoder model is tied to the real encoders, and the receiver model to the real receivers, by translation (Trans/*) and by differential loop-back of real encoder output through the real receivers.')
+LEVEL_TEXT = ('PROOF of the message-level round trips on the model (ViaProofs/Roundtrip.lean): for EVERY method / target / version / status / reason / list of header lines / body / chunk size / extension / trailer list that meets the stated validity conditions and every receiver configuration whose limits admit them, what tx_request::message, tx_response::message, chunk_header::to_string and last_chunk::to_string produce is received by request_receiver / response_receiver / rx_chunk as ONE valid message with exactly those components, leaving later bytes unread; plus hex/decimal number round trips and acceptance of every header name the library defines (regenerated table). Both sides are tied to the source by translation: the encoders (ViaGen/ENC, Trans/ENC) and the receivers (ViaGen/RR, RS, CK, Trans/*) are translated from the current tree and proved equal to the model, and Trans/EndToEnd restates the round trips on the translated functions (source_request_roundtrip, source_response_roundtrip, source_chunk_roundtrip, source_lastChunk_roundtrip); in addition real encoder output is looped back through the real receivers.')
 RULE = ("requests / responses / chunks / last-chunks built through tx_request, tx_response, chunk_header and last_chunk from valid "
         "components (all 8 method ids and arbitrary upper-case methods, targets, versions, every header id of the enumeration "
         "and arbitrary token names, values without line breaks, bodies, chunk sizes incl. hex-width edges, extensions, trailers) "
